@@ -57,6 +57,7 @@ type Watch struct {
 	VisAt    map[string]int // per key: the node's visible-change counter at registration
 	ChangeAt int            // node change counter at registration
 	slow     time.Duration  // how long the callback takes
+	Ended    bool           // the harness has ended it (its context was cancelled) before the end of the history
 	// scratch for harnesses that poll the watcher
 	SeenValue string
 	SeenCalls int
@@ -454,6 +455,14 @@ func (c *Cluster) AddWatch(i int, key string, prefix bool, useRingClient bool) *
 	vx.Wait()
 	c.Watches = append(c.Watches, w)
 	return w
+}
+
+// EndWatch ends a watcher before the end of the history (its caller's context is done).
+func (c *Cluster) EndWatch(w *Watch) {
+	w.cancel()
+	vx.Wait()
+	w.Ended = true
+	c.Stats["watchers_ended_early"]++
 }
 
 // SetSlow makes every further callback of the watcher take d.
